@@ -14,6 +14,8 @@
    execution and is reported as the violation with its log. *)
 From Coq Require Import NArith List Lia.
 From Mtbl Require Import model.Bytes model.Pool props.Properties_C13.
+(* source ties: the statements of the C functions the model follows (gen/Ties.v is regenerated from /repo on every run) *)
+From Mtbl Require props.Ties_C14.
 Local Open Scope N_scope.
 
 (* the mutex that guards the shared fields touched by the code at a label *)
